@@ -13,7 +13,7 @@ the end of every operation.
 
 Not here: the E-thr scenario (two threads in quit() at line granularity) - added by the lead.
 """
-import io, logging, os, sys, warnings
+import gc, io, logging, os, sys, warnings
 from mc.engine import explore, pmap, Ctx
 from mc.report import Report, digest
 from mc.refs.c08_model import Model
@@ -62,6 +62,9 @@ class _FakeThread (object):
 
 
 class NS (object): pass
+
+
+def _no_collect (*a): return 0
 
 
 def _import ():
@@ -145,6 +148,7 @@ class Env (object):
     self.thread = threading.Thread; threading.Thread = _FakeThread
     self.out = sys.stdout; sys.stdout = _Null()
     self.err = sys.stderr; sys.stderr = _Null()
+    self.collect = gc.collect; gc.collect = _no_collect     # _quit() collects garbage up to 51 times
     _CUR = self.w
     return self
   def __exit__ (self, *a):
@@ -152,6 +156,7 @@ class Env (object):
     import threading
     threading.Thread = self.thread
     sys.stdout = self.out; sys.stderr = self.err
+    gc.collect = self.collect
     _CUR = None
     return False
 
